@@ -148,6 +148,33 @@ impl<'a> Tr<'a> {
                         return Ok((format!("rs_vec_zeros {}", paren(&n)), RTy::Bytes));
                     }
                 }
+                if name == "matches" {
+                    // matches!(e, p1 | p2 | ..)
+                    struct MA(syn::Expr, syn::Pat);
+                    impl syn::parse::Parse for MA {
+                        fn parse(input: syn::parse::ParseStream) -> syn::Result<Self> {
+                            let e: syn::Expr = input.parse()?;
+                            let _: syn::Token![,] = input.parse()?;
+                            let p = syn::Pat::parse_multi_with_leading_vert(input)?;
+                            Ok(MA(e, p))
+                        }
+                    }
+                    let ma: MA = syn::parse2(m.mac.tokens.clone()).map_err(|e| format!("matches!: {}", e))?;
+                    let (sv, sty) = self.expr(&ma.0)?;
+                    let pats: Vec<syn::Pat> = match ma.1 {
+                        syn::Pat::Or(o) => o.cases.into_iter().collect(),
+                        p => vec![p],
+                    };
+                    let mut s = format!("match {} with", sv);
+                    for p in &pats {
+                        self.scopes.push(Default::default());
+                        let pt = self.pat(p, &sty);
+                        self.scopes.pop();
+                        s.push_str(&format!(" | {} => true", pt?.trim_start_matches('\'')));
+                    }
+                    s.push_str(" | _ => false end");
+                    return Ok((format!("({})", s), RTy::Bool));
+                }
                 Err(format!("macro `{}!` in expression position", name))
             }
             syn::Expr::Cast(c) => {
@@ -155,6 +182,7 @@ impl<'a> Tr<'a> {
                 let to = rty_of(&c.ty, &self.f.generics);
                 match (&t, &to) {
                     (RTy::U64, RTy::Usize) => Ok((format!("N.to_nat ({} mod USIZE)", paren(&v)), RTy::Usize)),
+                    (RTy::U8, RTy::Usize) => Ok((format!("N.to_nat {}", paren(&v)), RTy::Usize)),
                     (RTy::U128, RTy::U64) => Ok((format!("{} mod 2 ^ 64", paren(&v)), RTy::U64)),
                     (RTy::Usize, RTy::U64) => Ok((format!("N.of_nat {}", paren(&v)), RTy::U64)),
                     (a, b) if a == b => Ok((v, to)),
@@ -166,9 +194,62 @@ impl<'a> Tr<'a> {
             syn::Expr::MethodCall(m) => self.method(m),
             syn::Expr::Field(f) => {
                 let (v, t) = self.expr(&f.base)?;
-                match &f.member {
-                    syn::Member::Unnamed(i) if i.index == 0 && t == RTy::U64 => Ok((v, RTy::U64)), // Uint(x).0
-                    _ => Err("field access".into()),
+                match (&f.member, &t) {
+                    (syn::Member::Unnamed(i), RTy::U64) if i.index == 0 => Ok((v, RTy::U64)), // Uint(x).0
+                    (syn::Member::Unnamed(i), RTy::W(n)) if i.index == 0 => match crate::wrappers::wrapper(n) {
+                        Some(crate::wrappers::WKind::Newtype(inner)) => Ok((v, inner)),
+                        _ => Err("field .0 of a non-newtype".into()),
+                    },
+                    (syn::Member::Named(id), RTy::W(n)) => match crate::wrappers::wrapper(n) {
+                        Some(crate::wrappers::WKind::Record(_, _, fields)) => {
+                            let fname = id.to_string();
+                            match fields.iter().find(|(rn, _, _)| *rn == fname) {
+                                Some((_, proj, ft)) => Ok((format!("{} {}", proj, paren(&v)), ft.clone())),
+                                None => Err(format!("field `{}`", fname)),
+                            }
+                        }
+                        _ => Err("named field of a non-record".into()),
+                    },
+                    _ => Err(format!("field access on {:?}", t)),
+                }
+            }
+            syn::Expr::Struct(st) => {
+                let segs: Vec<String> = st.path.segments.iter().map(|s| s.ident.to_string()).collect();
+                let owner = if segs[0] == "Self" { self.f.container.clone() } else { segs[0].clone() };
+                let mut given: Vec<(String, String)> = vec![];
+                for fv in &st.fields {
+                    let n = match &fv.member {
+                        syn::Member::Named(i) => i.to_string(),
+                        _ => return Err("struct literal member".into()),
+                    };
+                    given.push((n, self.expr(&fv.expr)?.0));
+                }
+                if st.rest.is_some() {
+                    return Err("struct update syntax".into());
+                }
+                match crate::wrappers::wrapper(&owner) {
+                    Some(crate::wrappers::WKind::Record(_, ctor, fields)) if segs.len() == 1 => {
+                        let mut args = vec![];
+                        for (rn, _, _) in &fields {
+                            match given.iter().find(|(n, _)| n == rn) {
+                                Some((_, v)) => args.push(paren(v)),
+                                None => return Err(format!("struct literal lacks `{}`", rn)),
+                            }
+                        }
+                        if given.len() != fields.len() {
+                            return Err("struct literal with unknown fields".into());
+                        }
+                        Ok((format!("{} {}", ctor, args.join(" ")), RTy::W(owner)))
+                    }
+                    Some(crate::wrappers::WKind::Pok) if segs.len() == 2 => {
+                        let sc = crate::wrappers::scheme_ctor(&segs[1]).ok_or("scheme variant")?;
+                        let get = |k: &str| given.iter().find(|(n, _)| n == k).map(|(_, v)| paren(v));
+                        match (get("u"), get("v")) {
+                            (Some(u), Some(v)) if given.len() == 2 => Ok((format!("mkpok {} {} {}", sc, u, v), RTy::W(owner))),
+                            _ => Err("ProofOfKnowledge literal".into()),
+                        }
+                    }
+                    _ => Err(format!("struct literal `{}`", segs.join("::"))),
                 }
             }
             syn::Expr::Index(ix) => {
@@ -186,10 +267,26 @@ impl<'a> Tr<'a> {
                     self.pre.push(Bind::M(tmp.clone(), format!("rs_slice {} {} {}", paren(&v), paren(&lo), paren(&hi))));
                     return Ok((tmp, t));
                 }
-                Err("indexing by a single position".into())
+                let el = match &t {
+                    RTy::List(e) => (**e).clone(),
+                    RTy::Bytes => RTy::U8,
+                    _ => RTy::Unknown,
+                };
+                let (i, _) = self.expr(&ix.index)?;
+                let i = match lit_int(&ix.index) {
+                    Some(n) => format!("{}%nat", n),
+                    None => i,
+                };
+                let tmp = self.tmp("e");
+                self.pre.push(Bind::M(tmp.clone(), format!("rs_index {} {}", paren(&v), paren(&i))));
+                Ok((tmp, el))
             }
             syn::Expr::If(i) => self.cond_expr_if(i),
             syn::Expr::Match(m) => self.cond_expr_match(m),
+            syn::Expr::Block(b) if matches!(b.block.stmts.as_slice(), [syn::Stmt::Expr(_, None)]) => {
+                let [syn::Stmt::Expr(inner, None)] = b.block.stmts.as_slice() else { unreachable!() };
+                self.expr(inner)
+            }
             syn::Expr::Block(b) => {
                 let mv = self.mutated_in_stmts(&b.block.stmts);
                 self.value_depth += 1;
@@ -227,6 +324,14 @@ impl<'a> Tr<'a> {
             return Err(format!("unknown name `{}`", n));
         }
         let last = segs.last().unwrap().as_str();
+        if segs.len() == 2 && segs[0] == "SignatureSchemes" {
+            if let Some(sc) = crate::wrappers::scheme_ctor(last) {
+                return Ok((sc.to_string(), RTy::Scheme));
+            }
+        }
+        if s == "u8::MAX" {
+            return Ok(("255%N".into(), RTy::U8));
+        }
         // associated constants of the scheme traits
         let tr_name = if let Some(q) = &p.qself {
             if q.position >= 1 {
@@ -380,6 +485,66 @@ impl<'a> Tr<'a> {
         let segs: Vec<String> = p.path.segments.iter().map(|x| x.ident.to_string()).collect();
         let last = segs.last().unwrap().as_str();
         let args: Vec<&syn::Expr> = c.args.iter().collect();
+        // wrapper constructors: newtypes are erased, scheme-tagged variants build the model's records
+        {
+            let owner = if segs[0] == "Self" { self.f.container.clone() } else { segs[0].clone() };
+            if segs.len() == 1 {
+                if let Some(crate::wrappers::WKind::Newtype(_)) = crate::wrappers::wrapper(&owner) {
+                    let (v, _) = self.expr(args[0])?;
+                    return Ok((v, RTy::W(owner)));
+                }
+            }
+            if segs.len() == 2 {
+                if let Some((ctor, _)) = self.variant_ctor(&p.path) {
+                    let (v, _) = self.expr(args[0])?;
+                    return Ok((format!("{} {}", ctor, paren(&v)), RTy::W(owner)));
+                }
+            }
+        }
+        // free helper functions of src/helpers.rs and the vsss-rs entry points
+        {
+            let base = s.split("::<").next().unwrap_or(&s).to_string();
+            match base.as_str() {
+                "scalar_to_be_bytes" | "scalar_to_le_bytes" => {
+                    let (v, _) = self.expr(args[0])?;
+                    return Ok((format!("{} {} {}", base, self.o(), paren(&v)), RTy::Bytes));
+                }
+                "scalar_from_be_bytes" | "scalar_from_le_bytes" => {
+                    let (v, _) = self.expr(args[0])?;
+                    return Ok((format!("{} {} {}", base, self.o(), paren(&v)), RTy::Opt(Box::new(RTy::Scalar))));
+                }
+                "shamir::split_secret" => {
+                    let th = self.expr(args[0])?.0;
+                    let li = self.expr(args[1])?.0;
+                    let sc = self.expr(args[2])?.0;
+                    if matches!(strip(args[3]), syn::Expr::Reference(_)) {
+                        return Err("split_secret with a borrowed generator".into());
+                    }
+                    let r = self.rng_arg(args[3])?;
+                    let tmp = self.tmp("x");
+                    self.pre.push(Bind::M(tmp.clone(), format!("vsss_split_secret {} {} {} {} (fst {}) (snd {})", self.o(), paren(&sc), paren(&th), paren(&li), r, r)));
+                    return Ok((tmp, RTy::Res(Box::new(RTy::List(Box::new(RTy::SkShare))))));
+                }
+                "combine_shares" => {
+                    let v = self.expr(args[0])?.0;
+                    let tmp = self.tmp("x");
+                    self.pre.push(Bind::M(tmp.clone(), format!("combine_secret_shares {} {}", self.o(), paren(&v))));
+                    return Ok((tmp, RTy::Res(Box::new(RTy::Scalar))));
+                }
+                _ => {}
+            }
+        }
+        // `<C as HashToScalar>::hash_to_scalar`, `<C as Pairing>::Signature::identity()` in the wrappers
+        if s == "<CasHashToScalar>::hash_to_scalar" {
+            let a = self.expr(args[0])?.0;
+            let b = self.expr(args[1])?.0;
+            let tmp = self.tmp("x");
+            self.pre.push(Bind::M(tmp.clone(), format!("hash_to_scalar {} {} {}", self.o(), paren(&a), paren(&b))));
+            return Ok((tmp, RTy::Scalar));
+        }
+        if s == "<CasPairing>::Signature::default" {
+            return Ok(("(@pid K Gsig)".into(), RTy::SigPt));
+        }
         // constructors
         match s.as_str() {
             "Ok" | "Some" => {
@@ -665,7 +830,76 @@ impl<'a> Tr<'a> {
             ));
             return Ok((tmp, it));
         }
+        if name == "into" {
+            // `0u8.into()` / `1u8.into()` build a Choice
+            if let syn::Expr::Lit(l) = strip(&m.receiver) {
+                if let syn::Lit::Int(i) = &l.lit {
+                    if i.suffix() == "u8" {
+                        match i.base10_parse::<u8>() {
+                            Ok(0) => return Ok(("false".into(), RTy::Bool)),
+                            Ok(1) => return Ok(("true".into(), RTy::Bool)),
+                            _ => {}
+                        }
+                    }
+                }
+            }
+        }
         let (r, rt) = self.expr(&m.receiver)?;
+        // inherent method of a wrapper type
+        if let RTy::W(tn) = &rt {
+            if let Some(&i) = self.table.by_key.get(&format!("{}::{}", tn, name)) {
+                let callee = &self.table.fns[i];
+                let params = callee.params();
+                if params.len() != args.len() + 1 {
+                    return Err(format!("arity of {}", callee.key()));
+                }
+                let mut avs = vec![paren(&r)];
+                let mut outs = vec![];
+                for ((_, pt), a) in params.iter().skip(1).zip(args.iter()) {
+                    if *pt == RTy::Rng {
+                        let g = self.rng_arg(a)?;
+                        outs.push(g.clone());
+                        avs.push(g);
+                    } else {
+                        avs.push(paren(&self.expr(a)?.0));
+                    }
+                }
+                if self.table.world.contains(&callee.key()) {
+                    avs.push("wld".into());
+                    outs.push("wld".into());
+                }
+                let tmp = self.tmp("r");
+                let pat = if outs.is_empty() { tmp.clone() } else { format!("'({}, {})", tmp, outs.join(", ")) };
+                self.pre.push(Bind::M(pat, format!("{} E {}", callee.coq_name(), avs.join(" "))));
+                return Ok((tmp, callee.ret()));
+            }
+        }
+        let rt = crate::wrappers::erase(&rt);
+        if name == "map" && args.len() == 1 {
+            // `.map(Self)` / `.map(PublicKey)`: wrapping in an erased newtype
+            if let syn::Expr::Path(p) = strip(args[0]) {
+                let n = p.path.segments.last().unwrap().ident.to_string();
+                let owner = if n == "Self" { self.f.container.clone() } else { n };
+                if p.path.segments.len() == 1 {
+                    if let Some(crate::wrappers::WKind::Newtype(_)) = crate::wrappers::wrapper(&owner) {
+                        let nt = match &rt {
+                            RTy::Opt(_) => RTy::Opt(Box::new(RTy::W(owner))),
+                            RTy::Res(_) => RTy::Res(Box::new(RTy::W(owner))),
+                            RTy::List(_) => RTy::List(Box::new(RTy::W(owner))),
+                            other => other.clone(),
+                        };
+                        return Ok((r, nt));
+                    }
+                }
+            }
+        }
+        if name == "skip" {
+            let n = match lit_int(args[0]) {
+                Some(n) => format!("{}%nat", n),
+                None => self.expr(args[0])?.0,
+            };
+            return Ok((format!("skipn {} {}", paren(&n), paren(&r)), rt));
+        }
         if name == "to_vec" && rt == RTy::U64 {
             return Ok((format!("varint_enc {}", paren(&r)), RTy::Bytes)); // Uint::to_vec
         }
@@ -786,8 +1020,37 @@ impl<'a> Tr<'a> {
                     RTy::Bytes => RTy::U8,
                     _ => RTy::Unknown,
                 };
-                let (p, b, _) = self.closure1(args[0], &it)?;
-                (format!("{} (fun {} => {}) {}", if name == "all" { "forallb" } else { "existsb" }, p, b, rp), RTy::Bool)
+                match self.closure1(args[0], &it) {
+                    Ok((p, b, _)) => (format!("{} (fun {} => {}) {}", if name == "all" { "forallb" } else { "existsb" }, p, b, rp), RTy::Bool),
+                    Err(_) if name == "all" => {
+                        // closure with effects (indexing, calls): short-circuiting monadic version
+                        let syn::Expr::Closure(cl) = strip(args[0]) else { return Err("all without a closure".into()) };
+                        if !self.mutated_in_expr(&cl.body).is_empty() {
+                            return Err("closure mutating its environment".into());
+                        }
+                        self.scopes.push(Default::default());
+                        let saved = self.take_pre();
+                        self.value_depth += 1;
+                        let r2 = (|| -> R<(String, String)> {
+                            let p = match cl.inputs.first() {
+                                Some(p) => self.pat(p, &it)?,
+                                None => "_".into(),
+                            };
+                            let v = self.expr(&cl.body)?.0;
+                            let pre = self.take_pre();
+                            let body = self.wrap(&pre, format!("Val {}", paren(&v)))?;
+                            Ok((p, body))
+                        })();
+                        self.value_depth -= 1;
+                        self.pre = saved;
+                        self.scopes.pop();
+                        let (p, body) = r2?;
+                        let tmp = self.tmp("c");
+                        self.pre.push(Bind::M(tmp.clone(), format!("rs_allM (fun {} =>\n{}) {}", p, crate::tr::indent(&body, 2), rp)));
+                        (tmp, RTy::Bool)
+                    }
+                    Err(e) => return Err(e),
+                }
             }
             "finalize_xof" => (r, RTy::Bytes),
             "finalize_fixed" => (format!("sha {} {}", self.o(), rp), RTy::Bytes),
